@@ -38,7 +38,8 @@ Step ==
                 args == <<e.b[1] + 256 * e.b[2], e.b[3] + 256 * e.b[4]>>
                 seen == <<e.r[14] + 256 * e.r[15], e.r[16] + 256 * e.r[17]>>
                 rv == e.r[10] + 256 * e.r[11] + 65536 * e.r[12]
-            IN IF e.r[13] = 0 /\ D!DispatchOutcomeOK(e.list, fl, e.r[1], e.r[2], args, seen, rv)
+            IN IF e.op = "Ldef" /\ ~D!DefaultListOK(e.list, e.best) THEN Rej(e, "default-list-not-best-first")
+               ELSE IF e.r[13] = 0 /\ D!DispatchOutcomeOK(e.list, fl, e.r[1], e.r[2], args, seen, rv)
                THEN Acc /\ UNCHANGED <<cpu, cache, ret>>
                ELSE Rej(e, "dispatch")
        [] OTHER -> Rej(e, "no-action")
